@@ -35,6 +35,14 @@ var xtrTargets = []xtr.Target{
 	{Pkg: "crypto", Func: "getSerializedContainerLength", Name: "getSerializedContainerLength", Errs: map[string]uint64{"ErrIncorrectSerializedContainer": 45}},
 	{Pkg: "decryptor/postgresql", Func: "GetParameterFormatByIndex", Name: "GetParameterFormatByIndex", Errs: map[string]uint64{"ErrNotEnoughFormats": 32, "ErrUnknownFormat": 32}},
 	{Pkg: "keystore/v2/keystore/api", Func: "KeyStateTransitionValid", Name: "KeyStateTransitionValid"},
+	// xtr2: append / make / nil-sensitive parameter / range loop
+	{Pkg: "decryptor/mysql/base", Func: "PutLengthEncodedString", Name: "PutLengthEncodedString"},
+	{Pkg: "utils", Func: "IsPrintableEscapeChar", Name: "IsPrintableEscapeChar"},
+	{Pkg: "utils", Func: "EncodeToOctal", Name: "EncodeToOctal"},
+	// xtr2: translator self-test (harness/xtr/selftest, NOT acra code): counted loop, fuelled scanner loop, make + copy
+	{Pkg: xtr.SelftestPkg, Func: "SumWindow", Name: "Selftest_SumWindow"},
+	{Pkg: xtr.SelftestPkg, Func: "ScanRecords", Name: "Selftest_ScanRecords", Errs: map[string]uint64{"ErrSelftestBad": 46}},
+	{Pkg: xtr.SelftestPkg, Func: "PadCopy", Name: "Selftest_PadCopy"},
 }
 
 func xtrEmitTrans() {
